@@ -22,9 +22,10 @@ def check(run):
     if okr and mok.get('xpath'):
         from . import xpath_common as X
         X.eval_totality(run, n_random=300 if run.tier == 'quick' else 4000, isolate_limit=2 if run.tier == 'quick' else 8)
+        X.eval_cost(run)
     return run.finish(level='proof',
         rule='parser: every production of the XPath grammar on generated sentences / mutations (distinct by (production, string)); nested parentheses, predicates and calls to depth 24 (thorough 200) under a time limit; evaluation: unsupported construct x syntactic position, context-node kind x axis, garbage, generated queries with injected failures; non-trivial = non-empty input accepted by the expression parser or a hostile shape',
-        assumptions=['native stack depth and wall clock are outside the model', 'cost (time polynomial in the expression length) is measured on adversarial families, not proved'])
+        assumptions=['native stack depth and wall clock are outside the model', 'cost (time polynomial in the expression length) is measured on adversarial families of the parser and of the evaluator (one process per case, 10 s), not proved'])
 
 def replay(path):
     d = json.load(open(path))
